@@ -16,7 +16,7 @@ CLASS_LAYER = [PA + 'Pauli.__matmul__#Pauli', PA + 'Pauli.__neg__', PA + 'Pauli.
                PA + 'PauliList.rotate_by#nomask', PA + 'PauliList.transform_by#nomask', PA + 'PauliList.rotate_by#mask', PA + 'PauliList.transform_by#mask', ST + 'CliffordMap.copy', ST + 'CliffordMap.compose',
                ST + 'CliffordMap.to_state#r', ST + 'CliffordMap.to_state#none', ST + 'StabilizerState.copy', ST + 'StabilizerState.to_map',
                ST + 'StabilizerState.expect#list', ST + 'identity_map', ST + 'StabilizerState.measure#list', ST + 'StabilizerState.measure#state', ST + 'StabilizerState.postselect',
-               ST + 'StabilizerState.expect#state', ST + 'CliffordMap.inverse', ST + 'clifford_rotation_map', ST + 'zero_state', ST + 'maximally_mixed_state', ST + 'StabilizerState.entropy#mask', ST + 'StabilizerState.entropy#qubits', ST + 'StabilizerState.get_prob', PA + 'PauliPolynomial.__neg__', PA + 'PauliPolynomial.__rmul__', PA + 'PauliPolynomial.copy', ST + 'random_pauli_map', 'pyclifford/circuit.py::clifford_rotation_gate#noqubits', 'pyclifford/circuit.py::CliffordGate.compile#generator', 'pyclifford/circuit.py::CliffordGate.independent_from', PA + 'PauliList.__getitem__#int', PA + 'Pauli.rotate_by#nomask', PA + 'Pauli.transform_by#nomask', 'pyclifford/circuit.py::MeasureLayer.forward', PA + 'PauliList.__neg__', PA + 'PauliList.rotate_by#state', PA + 'PauliList.transform_by#state', PA + 'PauliPolynomial.__matmul__#poly', PA + 'Pauli.__matmul__#Monomial',
+               ST + 'StabilizerState.expect#state', ST + 'CliffordMap.inverse', ST + 'clifford_rotation_map', ST + 'zero_state', ST + 'one_state', ST + 'maximally_mixed_state', ST + 'StabilizerState.entropy#mask', ST + 'StabilizerState.entropy#qubits', ST + 'StabilizerState.get_prob', PA + 'PauliPolynomial.__neg__', PA + 'PauliPolynomial.__rmul__', PA + 'PauliPolynomial.copy', ST + 'random_pauli_map', 'pyclifford/circuit.py::clifford_rotation_gate#noqubits', 'pyclifford/circuit.py::CliffordGate.compile#generator', 'pyclifford/circuit.py::CliffordGate.independent_from', 'pyclifford/circuit.py::MeasureLayer.obs_gs_ps', PA + 'PauliList.__getitem__#int', PA + 'Pauli.rotate_by#nomask', PA + 'Pauli.transform_by#nomask', 'pyclifford/circuit.py::MeasureLayer.forward', PA + 'PauliList.__neg__', PA + 'PauliList.rotate_by#state', PA + 'PauliList.transform_by#state', PA + 'PauliPolynomial.__matmul__#poly', PA + 'Pauli.__matmul__#Monomial',
                'pyclifford/circuit.py::CliffordGate.forward#generator_global', 'pyclifford/circuit.py::CliffordGate.backward#generator_global',
                'pyclifford/circuit.py::CliffordGate.forward#map_global'] + GATES[3:] + LOCAL_GATES + LOCAL_STATE + \
               [PA + '%s.__rmul__#%s' % (c, t) for c in ('Pauli', 'PauliList') for t in ('1', 'i', 'm1', 'mi')]
@@ -153,12 +153,12 @@ def C11(run):
 
 def C12(run):
     run.deductive(keys=[U + 'map_to_state', U + 'state_to_map', ST + 'CliffordMap.to_state#r', ST + 'CliffordMap.to_state#none', ST + 'StabilizerState.to_map', ST + 'identity_map', U + 'stabilizer_project',
-                        ST + 'zero_state', ST + 'maximally_mixed_state'], lemmas=['acq_bilinear', 'acq_antisym', 'acq_unit', 'acqsum_ext'])
+                        ST + 'zero_state', ST + 'one_state', ST + 'maximally_mixed_state'], lemmas=['acq_bilinear', 'acq_antisym', 'acq_unit', 'acqsum_ext'])
     run.bounded_check('c12_states', _b().c12_states, Nmax=q(run, 3, 3), count=q(run, 20, 300))
     return 'other', ('deductive (all N): map_to_state / state_to_map are the exact row and phase permutations (Z-images -> stabilizers, '
                      'X-images -> destabilizers); CliffordMap.to_state turns the canonical commutation relations of a map into the tableau '
                      'structure of the state; identity_map satisfies them, so zero_state / maximally_mixed_state are the valid Z-basis tableaux '
-                     'with all signs + and rank 0 / N; bounded: constructors, to_state/to_map round trip, to_qutip, stabilizer_state against dense matrices')
+                     'with all signs + and rank 0 / N, one_state the same tableau with all signs -; bounded: constructors, to_state/to_map round trip, to_qutip, stabilizer_state against dense matrices')
 
 
 def C13(run):
@@ -169,7 +169,7 @@ def C13(run):
 
 def C14(run):
     run.deductive(keys=[U + 'stabilizer_measure', U + 'stabilizer_postselection', ST + 'StabilizerState.postselect', ST + 'StabilizerState.measure#list',
-                        'pyclifford/circuit.py::MeasureLayer.forward'], lemmas=MEASURE_LEMMAS)
+                        'pyclifford/circuit.py::MeasureLayer.forward', 'pyclifford/circuit.py::MeasureLayer.obs_gs_ps'], lemmas=MEASURE_LEMMAS)
     run.bounded_check('c14_trajectory', _b().c14_trajectory, Nmax=3, programs=q(run, 40, 1200))
     return 'other', ('bounded: measurement layers and circuits with mid-circuit measurements against the dense trajectory in program order, '
                      'backward = adjoint of the recorded trajectory, impossible records rejected, post-selection of all signed strings')
